@@ -1,6 +1,173 @@
 import Got.Model.WaitClose
-/- property theorems of C16 (only theorems + non-vacuity examples live here) -/
+import Got.Spec.WaitClose
+import Got.Lemmas.WaitClose
+/- property theorems of C16 (only theorems + non-vacuity examples live here).
+
+All theorems quantify over every finite action list `acts` from `init` (a zero-value WaitClose): every number of
+goroutines, every program of C / WaitUtil / IsClosed / Close calls, every interleaving of their single shared accesses,
+every callback behaviour (duration, nil / error / panic) and every passage of time.  Because they hold in *every*
+reachable state, a statement "X holds once event E is in the log" covers the state right after E and all later ones. -/
 open Got.Model.WaitClose
 
-/-- placeholder while the proofs are being written: the initial state is not closed -/
-theorem C16_init_not_closed : init.state ≠ wcClosed := by decide
+/-- At most one callback start in any execution (and at most one close/assignment), and a callback is started only by
+    the goroutine that performed the close/assignment. -/
+theorem C16_one_callback (acts : List Act) :
+    let s := run init acts
+    cbStarts s.log ≤ 1 ∧ closeDos s.log ≤ 1 ∧
+    ∀ t n, Ev.cbStart t n ∈ s.log → ∃ c m, Ev.closeDo t c m ∈ s.log := by
+  intro s
+  obtain ⟨hA, hB, _⟩ := reach_inv acts
+  refine ⟨cbStarts_le_one hA hB, hB.dos, ?_⟩
+  intro t n h
+  exact hB.evs _ h
+
+/-- No Close-return event precedes the end of the callback: whenever some Close call has returned, the state word is
+    `closed`, every started callback has ended, and no goroutine is about to start or is running a callback (and, the
+    state being closed for ever, none will). -/
+theorem C16_return_after_callback (acts : List Act) :
+    let s := run init acts
+    (∃ t r n, Ev.closeRet t r n ∈ s.log) →
+      s.state = wcClosed ∧ cbStarts s.log = cbEnds s.log ∧ ∀ u, s.pc u ≠ .clCbStart ∧ s.pc u ≠ .clCbRun := by
+  intro s ⟨t, r, n, h⟩
+  obtain ⟨hA, hB, _⟩ := reach_inv acts
+  have hc : s.state = wcClosed := hB.evs _ h
+  refine ⟨hc, (hB.cl hc).1, ?_⟩
+  intro u
+  have hf := (hA.2 u).facts
+  constructor <;> intro hpc <;> rw [hpc] at hf <;> exact hf.1 hc
+
+/-- A Close call returns only in state `closed` (its own return step), in particular after the deferred store. -/
+theorem C16_close_returns_closed (acts : List Act) (t : Nat) (r : Option CbRes) :
+    let s := run init acts
+    s.pc t = .clRet r → s.state = wcClosed := by
+  intro s hpc
+  obtain ⟨hA, _, _⟩ := reach_inv acts
+  have hf := (hA.2 t).facts
+  rw [hpc] at hf
+  exact hf
+
+/-- A panicking callback still leaves the object closed: from any reachable state in which goroutine t runs the
+    callback, the panic followed by t's three deferred/return steps gives state `closed`, a released mutex, a closed
+    channel, a Close return (with nil, after recover), and no run-time fault of the Go code itself. -/
+theorem C16_panic_closes (acts : List Act) (t : Nat) :
+    let s := run init acts
+    s.pc t = .clCbRun →
+      let s' := run s [.cbEnd t .panic, .step t, .step t, .step t]
+      s'.state = wcClosed ∧ s'.mu = none ∧ chanClosed s' s'.closeChan = true ∧ s'.fault = false ∧
+      s'.log = s.log ++ [.cbEnd t .panic s.now, .closeRet t (some .panic) s.now] ∧ s'.pc t = .idle := by
+  intro s hpc s'
+  have hs' : s' = run init (acts ++ [.cbEnd t .panic, .step t, .step t, .step t]) := by
+    rw [run_append]
+  obtain ⟨hA', _, _⟩ := reach_inv (acts ++ [.cbEnd t .panic, .step t, .step t, .step t])
+  rw [← hs'] at hA'
+  have e1 : s'.state = wcClosed := by
+    simp [s', run, step, stepT, hpc, upd_same]
+  refine ⟨e1, ?_, ?_, hA'.1.fault, ?_, ?_⟩
+  · simp [s', run, step, stepT, hpc, upd_same]
+  · exact (closed_iff_done hA').mpr (hA'.1.cld e1)
+  · simp [s', run, step, stepT, hpc, upd_same]
+  · simp [s', run, step, stepT, hpc, upd_same]
+
+/-- C() never returns nil. -/
+theorem C16_C_not_nil (acts : List Act) :
+    ∀ t ch n, Ev.cRet t ch n ∈ (run init acts).log → ch ≠ none := by
+  intro t ch n h
+  obtain ⟨_, hB, _⟩ := reach_inv acts
+  have := hB.evs _ h
+  simp only [evFacts] at this
+  intro e; rw [e] at this; cases this.1
+
+/-- At most one channel is ever created; every channel ever returned by C, used by a finished or by a still waiting
+    WaitUtil is the object's one channel, and it is closed in every state in which some Close call has returned.
+    The Go code itself never faults (no close of a nil or of a closed channel). -/
+theorem C16_returned_channels_closed (acts : List Act) :
+    let s := run init acts
+    s.nchan ≤ 1 ∧ s.fault = false ∧
+    (∀ t ch n, Ev.cRet t ch n ∈ s.log → ch = s.closeChan) ∧
+    (∀ t b ch st T n, Ev.wuRet t b ch st T n ∈ s.log → ch = s.closeChan) ∧
+    (∀ u ch st T, s.pc u = .wSel ch st T → ch = s.closeChan) ∧
+    ((∃ t r n, Ev.closeRet t r n ∈ s.log) → chanClosed s s.closeChan = true) := by
+  intro s
+  obtain ⟨hA, hB, _⟩ := reach_inv acts
+  refine ⟨hA.1.nch.1, hA.1.fault, ?_, ?_, ?_, ?_⟩
+  · intro t ch n h; exact (hB.evs _ h).2
+  · intro t b ch st T n h; exact (hB.evs _ h).2
+  · intro u ch st T h
+    have := hB.pcs u; rw [h] at this; exact this.2
+  · intro ⟨t, r, n, h⟩
+    have hc : s.state = wcClosed := hB.evs _ h
+    exact (closed_iff_done hA).mpr (hA.1.cld hc)
+
+/-- IsClosed is stable: once it has returned true, or once any Close call has returned, the state word is `closed`;
+    it stays `closed` under every further action; and IsClosed reports exactly that word. -/
+theorem C16_isclosed_stable (acts : List Act) :
+    let s := run init acts
+    (((∃ t r n, Ev.closeRet t r n ∈ s.log) ∨ (∃ t n, Ev.iscRet t true n ∈ s.log)) → s.state = wcClosed) ∧
+    (s.state = wcClosed → ∀ more, (run s more).state = wcClosed) ∧
+    (∀ t, s.pc t = .isc →
+      (step s (.step t)).log = s.log ++ [.iscRet t (decide (s.state = wcClosed)) s.now]) := by
+  intro s
+  obtain ⟨hA, hB, _⟩ := reach_inv acts
+  refine ⟨?_, ?_, ?_⟩
+  · rintro (⟨t, r, n, h⟩ | ⟨t, n, h⟩)
+    · exact hB.evs _ h
+    · exact hB.evs _ h
+  · intro hc more; exact run_closed_stable hA more hc
+  · intro t hpc; simp [step, stepT, hpc]
+
+/-- WaitUtil(T) whose timer was started at `st` and which returned at `n`:
+    * true  ⇒ the close happened at some `tc ≤ n`, and (for T > 0) no later than the deadline `st + T`;
+    * false ⇒ the deadline has been reached, and (for T > 0) the object was not closed strictly before the deadline —
+      it is not closed yet, or the close happened at `tc ≥ st + T`.
+    Hence: closed strictly before the deadline ⇒ the result is true; not closed by the deadline ⇒ false; either at
+    equality.  (T ≤ 0: the whole call happens at its deadline, so either result is possible once closed.)
+    `closeTime` is the instant of the close/assignment event. -/
+theorem C16_waitutil (acts : List Act) :
+    let s := run init acts
+    (∀ t ch st T n, Ev.wuRet t true ch st T n ∈ s.log →
+        ∃ tc, s.closeTime = some tc ∧ tc ≤ n ∧ (0 < T → (tc : Int) ≤ st + T)) ∧
+    (∀ t ch st T n, Ev.wuRet t false ch st T n ∈ s.log →
+        (st : Int) + T ≤ n ∧ (0 < T → s.closeTime = none ∨ ∃ tc, s.closeTime = some tc ∧ (st : Int) + T ≤ tc)) ∧
+    (∀ tc, s.closeTime = some tc → ∃ t c, Ev.closeDo t c tc ∈ s.log) := by
+  intro s
+  obtain ⟨_, _, hC⟩ := reach_inv acts
+  refine ⟨?_, ?_, hC.ctl⟩
+  · intro t ch st T n h
+    have := hC.ev _ h
+    simp only [evC] at this
+    exact this.2
+  · intro t ch st T n h
+    have := hC.ev _ h
+    simp only [evC] at this
+    exact this.2
+
+/-! ### non-vacuity: concrete executions -/
+
+/-- two goroutines Close an initialised object; goroutine 1 wins the mutex and runs its callback; goroutine 2 has passed
+    the first check, blocks on the mutex, re-checks under it and returns without running its callback, after the end
+    of goroutine 1's callback -/
+example :
+    let s := run init [.invoke 0 .c, .step 0, .step 0, .step 0, .step 0, .step 0, .step 0, .step 0,
+      .invoke 1 (.close true), .invoke 2 (.close true), .step 1, .step 2, .step 1, .step 2, .step 1, .step 1, .step 1,
+      .tick 5, .cbEnd 1 .ok, .step 1, .step 1, .step 2, .step 2, .step 1, .step 2, .step 2]
+    s.log = [.cRet 0 (some 1) 0, .closeDo 1 1 0, .cbStart 1 0, .cbEnd 1 .ok 5, .closeRet 1 (some .ok) 5,
+             .closeRet 2 none 5] ∧ s.state = wcClosed ∧ s.closed = [1, 0] := by decide
+
+/-- closed before first use: C() returns the shared pre-closed channel (id 0); a panicking callback still closes -/
+example :
+    let s := run init [.invoke 1 (.close true), .step 1, .step 1, .step 1, .step 1, .step 1, .cbEnd 1 .panic,
+      .step 1, .step 1, .step 1, .invoke 2 .c, .step 2, .step 2, .invoke 3 .isClosed, .step 3]
+    s.log = [.closeDo 1 0 0, .cbStart 1 0, .cbEnd 1 .panic 0, .closeRet 1 (some .panic) 0, .cRet 2 (some 0) 0,
+             .iscRet 3 true 0] ∧ s.nchan = 0 := by decide
+
+/-- WaitUtil(10) started at 0: closed at 4 ⇒ true at 4; time cannot pass while the select is ready -/
+example :
+    let s := run init [.invoke 0 (.waitUtil 10), .step 0, .step 0, .step 0, .step 0, .step 0, .step 0, .step 0,
+      .tick 4, .invoke 1 (.close false), .step 1, .step 1, .step 1, .step 1, .tick 3, .step 0]
+    s.log = [.closeDo 1 1 4, .wuRet 0 true (some 1) 0 10 4] ∧ s.now = 4 := by decide
+
+/-- WaitUtil(3) started at 0, nobody closes: time cannot jump over the deadline; false at 3 -/
+example :
+    let s := run init [.invoke 0 (.waitUtil 3), .step 0, .step 0, .step 0, .step 0, .step 0, .step 0, .step 0,
+      .tick 7, .tick 3, .timeout 0]
+    s.log = [.wuRet 0 false (some 1) 0 3 3] ∧ s.now = 3 := by decide
